@@ -651,7 +651,7 @@ def chk_dist(inp, c):
 
     # ---- all-zero rows have no chromaticity: they must not take part in the choice of the common factor
     # (the code documents that it substitutes the neutral point for them).  Twin run without the zero rows.
-    if has_zero:
+    if has_zero and not c.violations:
         twin = c.call(est.gamut_dist_scaling, _layout(B[nzr], "C"), _where="gamut_dist_scaling(zero rows removed)", **kw)
         twin = np.asarray(twin, dtype=float)
         if c.require(twin.shape == out[nzr].shape and np.all(np.isfinite(twin)), "twin run without the zero rows returns an array",
